@@ -543,3 +543,33 @@ def _after_clocked(O):
             desc=DESC + "two input columns and an expected column, executed AFTER a source row `X C n`")
 def _after_x(O):
     run_layout(O, LAYOUTS_QUICK[0], 17, first_kinds=("X", "C", "N"))
+
+
+def fault_expansion_battery():
+    """A driver error on one write of an expansion: the error is that row's item, the rest of the expansion still runs."""
+    S = [("in", "CLK", 1, 0), ("in", "A", 1, 0), ("in", "B", 1, 0), ("out", "Y", 8)]
+    b = []
+    b.append(Scenario("A B Y\nX X 1\n0 0 1\n", S, default_answer=[1], fail_at=[2], stop_on_err=False, max_rows=40,
+                      expect={"row_inputs": [["0", "0", "0"], ["0", "0", "1"], ["0", "1", "1"], ["0", "0", "0"]],
+                              "items": ["row", "err", "row", "row", "row"]},
+                      note="driver error on the second of four X assignments: the other assignments still run"))
+    b.append(Scenario("CLK A Y\nC 1 1\n0 0 1\n", S, default_answer=[1], fail_at=[1], stop_on_err=False, max_rows=40,
+                      expect={"row_inputs": [["1", "1", "0"], ["0", "1", "0"], ["0", "0", "0"]], "items": ["err", "row", "row", "row"]},
+                      note="driver error on the clock-low write: the clock is still pulsed and the row compared"))
+    b.append(Scenario("CLK A Y\nC 1 1\n0 0 1\n", S, default_answer=[1], fail_at=[2], stop_on_err=False, max_rows=40,
+                      expect={"row_inputs": [["0", "1", "0"], ["0", "1", "0"], ["0", "0", "0"]], "items": ["row", "err", "row", "row"]},
+                      note="driver error on the clock-high write: the compared row still follows"))
+    b.append(Scenario("CLK A Y\nC X 1\n", S, default_answer=[1], fail_at=[4], stop_on_err=False, max_rows=40,
+                      expect={"row_inputs": [["0", "0", "0"], ["1", "0", "0"], ["0", "0", "0"], ["1", "1", "0"], ["0", "1", "0"]],
+                              "items": ["row", "row", "row", "err", "row", "row"]},
+                      note="driver error at the start of the second clock triple of an X expansion"))
+    return b
+
+
+@obligation("C05/expansion-survives-faults", profiles=("dev",),
+            desc="next / handle_io store nothing into the iterator themselves and call nothing but get_row / handle_io / "
+                 "into_data_row resp. the driver, set_outputs, extract_output_values - on the error arms too: the rows of an "
+                 "expansion that are still queued when one write fails are executed all the same")
+def expansion_survives_faults(O):
+    from . import dri
+    dri.glue_keeps_state(O, dri.Rep({"family": "expansion"}, fault_expansion_battery(), B.literal_judge))
